@@ -68,6 +68,21 @@ def r1_filter_polarity(ctx):
                                   f"filter `{astx.u(t)}` normalises to `{k}`; documented: keep iff not removed")
     if sites < 4:
         ctx.violated(f, f.node, "remove_cand filter sites", f"only {sites} membership filters found (ranking, scores, candidates x2 expected)")
+    # `removed` may be a single name: it must be wrapped into a list before any `in removed` test,
+    # otherwise membership degrades to a substring test on the candidate's name
+    ann = astx.u(f.param_annotation(removed)) if f.param_annotation(removed) is not None else ""
+    first_use = min((n.lineno for n in astx.walk_own(f.node) if isinstance(n, ast.Compare) and isinstance(n.ops[0], (ast.In, ast.NotIn))
+                     and astx.is_name(n.comparators[0], removed)), default=10 ** 9)
+    wraps = []
+    for n in astx.walk_own(f.node):
+        if isinstance(n, ast.Assign) and astx.is_name(n.targets[0], removed) and isinstance(n.value, (ast.List, ast.Tuple, ast.Set)) and len(n.value.elts) == 1 \
+                and astx.is_name(n.value.elts[0], removed):
+            lits = literals(N.conj(astx.path_condition(f.node, n, pm)))
+            if lits == {f"truthy(isinstance({removed}, str))"} and n.lineno < first_use:
+                wraps.append(n)
+    ctx.check(len(wraps) == 1 or "str" not in ann, f, wraps[0] if wraps else f.node, f"a single candidate name is wrapped into a list before any `in {removed}` test", ann,
+              f"`{removed}: {ann}` can be a bare string, but no `if isinstance({removed}, str): {removed} = [{removed}]` precedes the membership tests: "
+              "`c not in removed` would be a substring test (removing 'Leeson' also strikes 'Lee')")
     # empty positions are dropped, non-empty ones kept
     apps = [c for c in astx.calls_in(f.node, "append") if isinstance(c.args[0], ast.Call) and astx.call_name(c.args[0]) == "frozenset"]
     good = False
@@ -425,6 +440,7 @@ FAULTS = [
     ("noncands filter inverted", [(CL, "            if cand not in to_remove and cand not in clean_ranking:", "            if cand in to_remove and cand not in clean_ranking:")], "C12.R1"),
 ]
 FAULTS += [
+    ("single name no longer wrapped", [(UT, "    if isinstance(removed, str):\n        removed = [removed]\n", "    if not isinstance(removed, (str, list)):\n        removed = list(removed)\n")], "C12.R1"),
     ("merge keeps first weight", [(CL, "    weight = sum(b.weight for b in ballots)", "    weight = ballots[0].weight")], "C12.R"),
     ("merge takes last ranking", [(CL, "    ranking = ballots[0].ranking", "    ranking = ballots[-1].ranking if len(ballots) > 3 else ballots[0].ranking")], "C12.R6"),
     ("groups of one dropped", [(CL, "    new_ballots = tuple([merge_ballots(b) for b in grouped_ballots])\n    return PreferenceProfile(ballots=new_ballots)\n\n\ndef merge_ballots", "    new_ballots = tuple([merge_ballots(b) for b in grouped_ballots if len(b) > 1 or b[0].weight > 0])\n    return PreferenceProfile(ballots=new_ballots)\n\n\ndef merge_ballots")], "C12.R6"),
